@@ -136,6 +136,7 @@ theorem inlineFilterRefs_ne_fuel (G : Graph) (val : Obj) : inlineFilterRefs G va
     · next e he => intro h; cases h; exact resolveElems_ne_fuel G _ he
     · simp
   · simp
+  · simp
 
 theorem startsWithCrypt_ne_fuel (G : Graph) (o : Obj) : startsWithCrypt G o ≠ .error .fuel := by
   unfold startsWithCrypt
@@ -247,6 +248,33 @@ def GoodVal (G : Graph) (U : List Ref) (W : Nat) : Val → Prop
     handed -/
 def Closed (G : Graph) (U : List Ref) (W : Nat) : Prop :=
   ∀ r v, r ∈ U → resolveOrNull G r = .ok v → GoodVal G U W v
+
+theorem unv_enter_lt {U : List Ref} {tr : List (Ref × Ref)} {chain : List Ref} {r n : Ref}
+    (hr : r ∈ U) (hrc : r ∈ chain) (hfresh : ∀ k ∈ chain, assoc k tr = none) :
+    unv U (enter chain n tr) < unv U tr := by
+  have hlt := unv_cons_lt (U := U) (n := n) hr (hfresh r hrc)
+  have hext : Extends ((r, n) :: tr) (enter chain n tr) := by
+    intro k t hk
+    simp only [assoc] at hk
+    split at hk
+    · next e => subst e; cases hk; exact assoc_enter_mem hrc
+    · next hne =>
+      unfold enter
+      rw [assoc_append]
+      have : assoc k (chain.map fun k => (k, n)) = none := by
+        rw [assoc_none_iff]
+        intro hm
+        have := hfresh k (mem_enter_keys.mp hm)
+        rw [this] at hk; cases hk
+      rw [this]; exact hk
+  exact Nat.lt_of_le_of_lt (unv_mono hext) hlt
+
+theorem walkFrom_ne_fuel {G : Graph} {tr : List (Ref × Ref)} {r : Ref} (hr : assoc r tr = none) :
+    walkFrom G tr r ≠ .fails .fuel := by
+  intro h
+  have := walkFrom_out (G := G) hr
+  rw [h] at this
+  exact this.1 rfl
 
 section
 variable (G : Graph) (U : List Ref) (W : Nat)
@@ -413,22 +441,27 @@ theorem fstep_ref (hC : Closed G U W) (f : Nat) (hV : FVal G U W f) : FRef G U W
   split
   · intro h; cases h
   · next hnone =>
+    have hw := walkFrom_out (G := G) hnone
     split
-    · next e he =>
-      intro h; cases h
-      unfold alloc at he
-      split at he <;> cases he
-    · next n s1 ha =>
-      obtain ⟨hn, hs1⟩ := alloc_ok ha
-      subst hn; subst hs1
-      simp only
+    · next e he => intro h; cases h; exact walkFrom_ne_fuel hnone he
+    · intro h; cases h
+    · intro h; cases h
+    · next v chain hwk =>
+      rw [hwk] at hw
+      obtain ⟨hres, _, w2, w3, _⟩ := hw
       split
-      · next e he => intro h; cases h; exact resolveOrNull_ne_fuel G r he
-      · next v hres =>
-        have hlt := unv_cons_lt (U := U) (n := refOf s.next) hr hnone
-        have hm : (unv U ((r, refOf s.next) :: s.trans) + 1) * (W + 6) ≤ unv U s.trans * (W + 6) :=
+      · next e he =>
+        intro h; cases h
+        unfold alloc at he
+        split at he <;> cases he
+      · next n s1 ha =>
+        obtain ⟨hn, hs1⟩ := alloc_ok ha
+        subst hn; subst hs1
+        simp only
+        have hlt := unv_enter_lt (U := U) (n := refOf s.next) hr w3 w2
+        have hm : (unv U (enter chain (refOf s.next) s.trans) + 1) * (W + 6) ≤ unv U s.trans * (W + 6) :=
           Nat.mul_le_mul_right _ hlt
-        have h1 := hV { trans := (r, refOf s.next) :: s.trans, next := s.next + 1, puts := s.puts } v
+        have h1 := hV { trans := enter chain (refOf s.next) s.trans, next := s.next + 1, puts := s.puts } v
           (hC r v hr hres) (by simp only; rw [Nat.add_mul] at hm; omega)
         split
         · next e he => intro h; cases h; exact h1 he
@@ -803,18 +836,20 @@ theorem mstep_ref (f : Nat) (hV : MVal G f) : MRef G (f+1) := by
   | none =>
     rw [ht] at hne
     simp only at hne ⊢
-    cases ha : alloc s with
-    | error e => rfl
-    | ok p =>
-      obtain ⟨n, s1⟩ := p
-      rw [ha] at hne
+    cases hw : walkFrom G s.trans r with
+    | fails e => rfl
+    | dead => rfl
+    | known t chain => rfl
+    | ends v chain =>
+      rw [hw] at hne
       simp only at hne ⊢
-      cases hr : resolveOrNull G r with
+      cases ha : alloc s with
       | error e => rfl
-      | ok v =>
-        rw [hr] at hne
+      | ok p =>
+        obtain ⟨n, s1⟩ := p
+        rw [ha] at hne
         simp only at hne ⊢
-        by_cases hs : copyVal f G { s1 with trans := (r, n) :: s1.trans } v = .error .fuel
+        by_cases hs : copyVal f G { s1 with trans := enter chain n s1.trans } v = .error .fuel
         · rw [hs] at hne; exact absurd rfl hne
         · rw [hV _ _ hs]
 
@@ -851,8 +886,8 @@ end
 
 /-! ### on a readable source the copier does not fail -/
 
-theorem put_succeeds {G : Graph} {s s3 : St} {r : Ref} (v : Val) (hp : PB s)
-    (h : Eff G { trans := (r, refOf s.next) :: s.trans, next := s.next + 1, puts := s.puts } s3) :
+theorem put_succeeds {G : Graph} {s s3 : St} {tr : List (Ref × Ref)} (v : Val) (hp : PB s)
+    (h : Eff G { trans := tr, next := s.next + 1, puts := s.puts } s3) :
     ∃ s4, put s3 (refOf s.next) v = .ok s4 := by
   obtain ⟨P, hb, hk⟩ := h.new_keys
   simp only at hb hk
@@ -1047,30 +1082,45 @@ theorem sstep_ref (hC : Closed G U W) (hB : Benign G U) (f : Nat) (hV : SVal G U
   | some t => exact Or.inl ⟨_, rfl⟩
   | none =>
     simp only
-    by_cases hroom : s.next ≥ Gen.cpy_maxXRefSize
-    · simp only [alloc, hroom, ↓reduceIte]; exact Or.inr rfl
-    · simp only [alloc, hroom, ↓reduceIte]
-      obtain ⟨v, hres, hbv⟩ := hB r hr
-      simp only [hres]
-      have hlt := unv_cons_lt (U := U) (n := refOf s.next) hr ht
-      have hm : (unv U ((r, refOf s.next) :: s.trans) + 1) * (W + 6) ≤ unv U s.trans * (W + 6) :=
-        Nat.mul_le_mul_right _ hlt
-      have hp2 : PB { trans := (r, refOf s.next) :: s.trans, next := s.next + 1, puts := s.puts } := by
-        intro k hk; have := hp k hk; simp only; omega
-      have h1 := hV { trans := (r, refOf s.next) :: s.trans, next := s.next + 1, puts := s.puts } v hp2
-        (hC r v hr hres) hbv (by simp only; rw [Nat.add_mul] at hm; omega)
-      rcases h1 with ⟨⟨v', s3⟩, ha⟩ | ha
-      · have e := ((copy_main G f).2.2.2.2.2.1 _ v v' s3 ha).1
-        obtain ⟨s4, h4⟩ := put_succeeds v' hp e
-        have ha' : copyVal f G { trans := (r, (s.next, 0)) :: s.trans, next := s.next + 1, puts := s.puts } v
-            = .ok (v', s3) := ha
-        have h4' : put s3 (s.next, 0) v' = .ok s4 := h4
-        simp only [ha', h4']
-        exact Or.inl ⟨_, rfl⟩
-      · have ha' : copyVal f G { trans := (r, (s.next, 0)) :: s.trans, next := s.next + 1, puts := s.puts } v
-            = .error .overflow := ha
-        simp only [ha']
-        exact Or.inr rfl
+    obtain ⟨v0, hres0, hbv0⟩ := hB r hr
+    have hw := walkFrom_out (G := G) ht
+    cases hwk : walkFrom G s.trans r with
+    | fails e =>
+      -- the walk fails only if Resolve fails, and r can be read
+      have h1 := walkFrom_fails ht hwk
+      rw [resolveOrNull_of_loop, h1] at hres0
+      rw [hwk] at hw
+      cases e <;> simp_all [WOutF]
+    | dead => exact absurd hwk walkFrom_not_dead
+    | known t chain => exact Or.inl ⟨_, rfl⟩
+    | ends v chain =>
+      rw [hwk] at hw
+      obtain ⟨hres, _, w2, w3, _⟩ := hw
+      have hv : v0 = v := by rw [hres0] at hres; cases hres; rfl
+      subst hv
+      simp only
+      by_cases hroom : s.next ≥ Gen.cpy_maxXRefSize
+      · simp only [alloc, hroom, ↓reduceIte]; exact Or.inr rfl
+      · simp only [alloc, hroom, ↓reduceIte]
+        have hlt := unv_enter_lt (U := U) (n := refOf s.next) hr w3 w2
+        have hm : (unv U (enter chain (refOf s.next) s.trans) + 1) * (W + 6) ≤ unv U s.trans * (W + 6) :=
+          Nat.mul_le_mul_right _ hlt
+        have hp2 : PB { trans := enter chain (refOf s.next) s.trans, next := s.next + 1, puts := s.puts } := by
+          intro k hk; have := hp k hk; simp only; omega
+        have h1 := hV { trans := enter chain (refOf s.next) s.trans, next := s.next + 1, puts := s.puts } v0 hp2
+          (hC r v0 hr hres0) hbv0 (by simp only; rw [Nat.add_mul] at hm; omega)
+        rcases h1 with ⟨⟨v', s3⟩, ha⟩ | ha
+        · have e := ((copy_main G f).2.2.2.2.2.1 _ v0 v' s3 ha).1
+          obtain ⟨s4, h4⟩ := put_succeeds v' hp e
+          have ha' : copyVal f G { trans := enter chain (s.next, 0) s.trans, next := s.next + 1, puts := s.puts } v0
+              = .ok (v', s3) := ha
+          have h4' : put s3 (s.next, 0) v' = .ok s4 := h4
+          simp only [ha', h4']
+          exact Or.inl ⟨_, rfl⟩
+        · have ha' : copyVal f G { trans := enter chain (s.next, 0) s.trans, next := s.next + 1, puts := s.puts } v0
+              = .error .overflow := ha
+          simp only [ha']
+          exact Or.inr rfl
 
 /-- With a closed universe of readable references, every call returns ok (or reports the
     object-number overflow) once the fuel is sufficient. -/
